@@ -55,7 +55,7 @@ def tlc_safe(x):
 
 
 def _one(args):
-    module, cfgp, tracefile, outfile, work, timeout, dfs = args
+    module, cfgp, tracefile, outfile, work, timeout, dfs, heap = args
     r = tlc.run_tlc(
         module,
         cfgp,
@@ -64,7 +64,7 @@ def _one(args):
         env={"TRACE_FILE": tracefile, "OUT_FILE": outfile},
         timeout=timeout,
         dfs=dfs,
-        heap="2g",
+        heap=heap,
     )
     if not os.path.exists(outfile):
         raise tlc.TLCError("trace validation produced no result file:\n" + r.out[-3000:])
@@ -72,7 +72,7 @@ def _one(args):
     return res, r.generated, r.distinct
 
 
-def validate(module, traces, constants, *, work, jobs=16, chunk=400, timeout=900, dfs=False, spec="TSpec"):
+def validate(module, traces, constants, *, work, jobs=16, chunk=400, timeout=900, dfs=False, spec="TSpec", heap="2g"):
     """Validate `traces` (list of JSON-able trace records) against spec/<module>.tla."""
     if not traces:
         return {"accepted": [], "rejected": {}, "failed": {}, "states": 0, "transitions": 0}
@@ -80,7 +80,9 @@ def validate(module, traces, constants, *, work, jobs=16, chunk=400, timeout=900
     cfgp = os.path.join(work, os.path.basename(module).replace(".tla", "") + "_%s.cfg" % abs(hash(json.dumps(constants, sort_keys=True, default=str))))
     with open(cfgp, "w") as f:
         f.write(_cfg_text(spec, constants))
-    nchunks = max(1, min(jobs * 2, (len(traces) + chunk - 1) // chunk))
+    nchunks = max(1, (len(traces) + chunk - 1) // chunk)
+    if nchunks > jobs * 2 and chunk >= 200:
+        nchunks = jobs * 2
     size = (len(traces) + nchunks - 1) // nchunks
     tasks = []
     for i in range(nchunks):
@@ -94,7 +96,7 @@ def validate(module, traces, constants, *, work, jobs=16, chunk=400, timeout=900
             os.remove(of)
         with open(tf, "w") as f:
             json.dump(tlc_safe(part), f)
-        tasks.append((i * size, len(part), (module, cfgp, tf, of, work, timeout, dfs)))
+        tasks.append((i * size, len(part), (module, cfgp, tf, of, work, timeout, dfs, heap)))
     accepted, rejected, failed, failed_pairs = [], {}, {}, {}
     states = trans = 0
     with cf.ThreadPoolExecutor(max_workers=jobs) as ex:
